@@ -12,19 +12,24 @@
 (* node       <<kind, f>>    one aggregate expression of the target list   *)
 (*            "sum"   sum(inv)           "fsum"  f(sum(inv))               *)
 (*            "sumf"  sum(f(inv))        f as in Inventory!ApplyP          *)
-(* statement  [nodes, grouped, having]                                     *)
+(* statement  [nodes, grouped, having, limit]                              *)
 (*            SELECT [g,] nodes FROM table [GROUP BY g]                    *)
-(*            [HAVING NOT empty(sum(inv))]                                 *)
+(*            [HAVING NOT empty(sum(inv))] [LIMIT limit]   (0: no LIMIT)   *)
 (* The expected result depends on the table's values and the statement     *)
 (* ONLY: not on how many nodes aggregate the same operand, not on what has *)
 (* been executed before on the table (by any cursor or connection).        *)
+(* A LIMIT clause restricts HOW MANY of the groups are returned (C12 does  *)
+(* not say which ones: that is the business of C03), never what a returned *)
+(* row carries: every returned row is a row of the statement without LIMIT *)
+(* -- the sums of ALL the rows of its group.                               *)
 (***************************************************************************)
 EXTENDS Inventory
 
 NoF == <<"", "", 0>>
 Node(kind, f) == <<kind, f>>
 Row(g, null, v) == [g |-> g, null |-> null, v |-> v]
-Stmt(nodes, grouped, having) == [nodes |-> nodes, grouped |-> grouped, having |-> having]
+StmtL(nodes, grouped, having, limit) == [nodes |-> nodes, grouped |-> grouped, having |-> having, limit |-> limit]
+Stmt(nodes, grouped, having) == StmtL(nodes, grouped, having, 0)
 CellInv(r) == IF r.null THEN EmptyInv ELSE r.v
 
 (* the inventory sum of the cells of the rows I (NULL cells do not contribute) *)
@@ -50,6 +55,14 @@ GroupRows(tab, s, k) == {i \in 1..Len(tab) : ~s.grouped \/ tab[i].g = k}
 Expected(tab, s, prices, sc) ==
     { [key |-> k, vals |-> [n \in 1..Len(s.nodes) |-> NodeValue(s.nodes[n], tab, GroupRows(tab, s, k), prices, sc)]] :
         k \in {k \in GroupKeys(tab, s) : ~s.having \/ SumRows(tab, GroupRows(tab, s, k)) # EmptyInv} }
+
+(* res is an acceptable result of statement s: without LIMIT exactly the expected rows; with LIMIT n any n of them
+   (all of them when there are fewer), each one complete *)
+MinOf(a, b) == IF a <= b THEN a ELSE b
+Conforms(res, tab, s, prices, sc) ==
+    LET E == Expected(tab, s, prices, sc)
+    IN IF s.limit = 0 THEN res = E
+       ELSE res \subseteq E /\ Cardinality(res) = MinOf(s.limit, Cardinality(E))
 
 (* laws: f of the sum is the sum of the f's; the group sums add up to the sum of the whole *)
 LawCommute(f, tab, I, prices, sc) == ApplyI(f, SumRows(tab, I), prices, sc) = SumFRows(f, tab, I, prices, sc)
